@@ -155,7 +155,7 @@ PROPS = {
     'C12': dict(
         judge='C12', judge_module='Judge.J11', judge_fn='judge_C12',
         cases=dict(quick=8000, thorough=80000),
-        rule='the C11 formula generator with exactly-one groups in positive positions only; the exported text is split into header, '
+        rule='the C11 formula generator with exactly-one groups in positive positions only (as the property states); the exported text is split into header, '
              'name comments and clauses; header counts, literal ranges, distinctness of the name/index map are checked and, for '
              'EVERY assignment of the formula variables, "the formula is true" is compared with "the export has a model agreeing '
              'with it on the named variables" (verified reference search); non-trivial = formula with at least one model and an '
